@@ -23,6 +23,17 @@ HINTS = {
  "C19": "Background: ragc-core/src/genome_io.rs (GenomeIO::open uses MultiGzDecoder for .gz, read_contig_raw splits at '>' lines, read_contig_impl keeps bytes > 64 and maps them through CNV_NUM, header is trimmed), ragc-core/src/contig_iterator.rs (sample name from PanSN header or file stem with .fa/.fasta removed), ragc-cli/src/main.rs (single input file = PanSN mode).",
  "C20": "Background: ragc-core/src/kmer.rs: Kmer::new(k, KmerMode::Canonical), insert, reset, is_full, data (canonical), data_dir, data_rc, is_dir_oriented; canonical_kmer, reverse_complement_kmer; k-mers are stored left-aligned in a u64 (2 bits per base, k up to 32). ragc-core/src/kmer_extract.rs: enumerate_kmers.",
 }
+import glob, os
+avoid = []
+for d in sorted(glob.glob(f'/verif/seeded/{pid}-m*')):
+    try:
+        m = json.load(open(d + '/meta.json'))
+        avoid.append('  - ' + os.path.basename(d).split('-', 2)[2].replace('-', ' ') + ' (needs: ' + m.get('needs_to_manifest', '')[:160] + ')')
+    except Exception:
+        pass
+AVOID = ''
+if avoid and os.environ.get('MUTANT_AVOID', '1') == '1':
+    AVOID = 'Ideas that were already used in an earlier round - do something DIFFERENT from these (another code site, another clause, another trigger):\n' + '\n'.join(avoid) + '\n'
 print(f"""You are helping to evaluate a test suite for the Rust project ekg/ragc (a Rust reimplementation of the AGC genome-collection compressor: k-mer splitter segmentation, LZ-diff encoding, a C++-compatible archive format, a multi-threaded compression pipeline). You have your own git worktree of the project at {wt} (work ONLY inside that directory; never touch /repo or /verif). The machine is offline: use `cargo ... --offline` (a Cargo.lock is already in the worktree; all dependencies are cached). The machine is busy; a `ragc create` of even a tiny input takes 2-10 seconds.
 
 Here is a semantic property that the project is supposed to satisfy:
@@ -39,6 +50,7 @@ YOUR TASK: make {n} DIFFERENT small, realistic changes to the project's source c
   2. the EXISTING test suite still passes unchanged: `timeout 1200 cargo test --workspace --no-fail-fast --offline` (all tests pass on the unmodified tree; ~1-3 minutes; note that some tests use fixed file names under /tmp and can fail spuriously if another copy of the suite runs at the same moment - re-run once before concluding anything),
   3. the property above is BROKEN by the change, and
   4. the breakage needs something SPECIFIC to manifest - an unusual input shape, a particular parameter value or combination, a boundary being crossed, a multi-step sequence of operations, a fault at a particular point, or two cooperating code sites that each look fine alone. Do NOT produce a change that ordinary use would expose at once, and do not just delete the feature. Subtle is better than blatant. If you can, break a different clause of the property with each change.
+{AVOID}
 Do not modify or add tests inside the project's existing test files to make them pass, do not touch anything guarded by `cfg(ragc_verif)` (that is instrumentation, leave it exactly as it is), and do not change Cargo.toml files.
 
 DELIVERABLES: for change number N in 1..{n}, a directory {wt}/mutant/N/ containing
